@@ -55,6 +55,11 @@ CHECKS = {
   note="bounded: universe of 17 colliding values, sequence length <=6, history depth <=7; reference equality is structural and type-distinguishing",
   tech="bounded-exhaustive enumeration against a reference set/record model + explicit-state BFS over mutation histories with an immutability invariant",
   ref="DESIGN.md §5 C11"),
+ "C12": dict(
+  text="bounded-exhaustive enumeration of boundary grids of every scalar type (longs/decimals at +-2^k+-{0,1}, +-10^k+-{0,1}, limits; every decimal with |v|<2.0; datetimes at every day boundary +-1 ms of 18 (thorough 36) years incl. year 0, leap centuries, the expanded-year switch and both limits; durations at every unit boundary; every IP prefix length on 12 addresses), 1.47 M independently rendered datetime literals judged by a reference calendar, all 32 duration unit subsets and unit orderings, every string within edit distance 1 of 67 valid literals, NewDecimal at the multiples where i*10^e wraps past 2^64, NewDecimalFromFloat at +-2^63/10^4 neighbours / NaN / Inf, every Unicode scalar in entity ids",
+  note="bounded grids as stated; reference recognisers follow the documented syntaxes; NewDecimalFromFloat only required to be within one float ulp; IPv6 zone ids / leading zeros / embedded IPv4: oracle abstains",
+  tech="bounded-exhaustive enumeration of literals and values against reference recognisers / big-int arithmetic (grids + edit-distance-1 neighbourhoods)",
+  ref="DESIGN.md §5 C12"),
  "C20": dict(
   text="explicit-state BFS over all container operation histories up to the stated depth from 14 initial states, every transition executed on the real PolicySet and compared with a Go-map model and the authorization decision table",
   note="bounded: ids {a, policy1, policy10, policy2}+loaded ids, 5 policy kinds, depth 4 (quick) / 6 (thorough); model = plain Go map",
